@@ -736,6 +736,7 @@ class Ovld:
     @_setattrs(rename="next")
     def next(self, *args):
         """Call the next matching method after the caller, in terms of priority or specificity."""
+        self.ensure_compiled()
         fr = sys._getframe(1)
         key = (fr.f_code, *self._key_of(args))
         method = self.map[key]
